@@ -8,7 +8,7 @@
 
    Representation: a Python set of Routes is a strictly increasing list of integers; None among the
    sources is -1 ([none_dir]).  `sources` are not stored by the hardware: read-back returns {None}. *)
-From Coq Require Import ZArith List Bool.
+From Coq Require Import ZArith List Bool Lia.
 Require Import Rig.Model.Base Rig.Generated.GenRouter Rig.Model.Tables Rig.Model.Router.
 Require Import Rig.Spec.Tables Rig.Spec.Router.
 Require Import Rig.Proofs.Tables Rig.Proofs.TablesFold Rig.Proofs.RouterWord Rig.Proofs.Router.
@@ -109,7 +109,7 @@ Theorem C10_load_installs_entries : forall m es x y app_id cs cs1 base,
         TWrite x y 0 (cs_buf cs) (16 * len es) (cksum data);
         TScp x y lrte_load_p lrte_load_cmd
              (lrte_load_arg1 (len es) app_id (cs_buf cs) base) (cs_buf cs) base 0])
-    /\ data = concat (Proofs.RouterBytes.recs_from 0 es)
+    /\ data = concat (recs_from 0 es)
     /\ cassoc (x, y) m' = Some cs'
     /\ (forall c, c <> (x, y) -> cassoc c m' = cassoc c m)
     /\ 1 <= base /\ base + len es <= 1024
@@ -156,6 +156,32 @@ Theorem C10_load_then_read : forall m es x y app_id cs cs1 base,
          exists got, nth_error l (Z.to_nat base + i) = Some got /\ read_back_of app_id e got.
 Proof. exact load_then_read. Qed.
 
+(* load_routing_tables: when the allocator grants a block on every chip of the dictionary (distinct chips),
+   every chip's router ends up holding its table as in C10_load_installs_entries, and chips without a
+   table are untouched.  ([grantable], [table_installed] are defined in Spec/Router.v: the hypotheses,
+   resp. the conclusions, of C10_load_installs_entries for one chip.) *)
+Theorem C10_load_tables_installs_every_table : forall tables m app_id,
+  NoDup (map fst tables) -> 0 <= app_id < 256 ->
+  (forall c es, In (c, es) tables -> grantable m c es) ->
+  exists m' tr,
+    load_routing_tables m tables app_id = (LOk, m', tr)
+    /\ (forall c es, In (c, es) tables -> table_installed m m' app_id c es)
+    /\ (forall c, ~ In c (map fst tables) -> cassoc c m' = cassoc c m).
+Proof. exact load_tables_success. Qed.
+
+(* load_routing_tables, first refusal: the router error names that chip and its table length; the chips
+   before it in the dictionary are loaded; that chip and all later ones are exactly as they were (the
+   tables already installed on earlier chips are NOT rolled back: this is how the code behaves). *)
+Theorem C10_load_tables_first_failure : forall pre m app_id x y es rest cs cs1,
+  NoDup (map fst (pre ++ ((x, y), es) :: rest)) -> 0 <= app_id < 256 ->
+  (forall c es0, In (c, es0) pre -> grantable m c es0) ->
+  cassoc (x, y) m = Some cs -> chip_ok cs -> rtr_alloc cs (len es) = (cs1, 0) ->
+  exists m' tr,
+    load_routing_tables m (pre ++ ((x, y), es) :: rest) app_id = (LRouterError (len es) x y, m', tr)
+    /\ (forall c es0, In (c, es0) pre -> table_installed m m' app_id c es0)
+    /\ (forall c, ~ In c (map fst pre) -> cassoc c m' = cassoc c m).
+Proof. exact load_tables_first_failure. Qed.
+
 (* ================================================================================================ *)
 (** * The hypotheses are satisfiable *)
 
@@ -184,8 +210,10 @@ Example C10_chip_ok_example :
   /\ rtr_alloc ex_chip 2 = (set_free ex_chip [(3, 2); (6, 1018)], 1).
 Proof.
   split; [|split; [|reflexivity]].
-  - unfold chip_ok. split; [reflexivity|]. split.
-    + repeat constructor; simpl; lia.
-    + vm_compute. intuition congruence.
-  - repeat constructor; simpl; intros; intuition lia.
+  - unfold chip_ok, ex_chip, mk_chip. cbn [cs_slots cs_free cs_buf cs_bufmem cs_rtr_copy].
+    split; [vm_compute; reflexivity|].
+    split; [constructor; [simpl; lia|]; constructor; [simpl; lia|]; constructor|].
+    unfold len. rewrite repeat_length. vm_compute. intuition congruence.
+  - constructor; [|constructor; [|constructor]]; unfold entry_ok; cbn [e_route e_key e_mask];
+      (split; [intros r Hr; simpl in Hr; intuition lia|lia]).
 Qed.
